@@ -104,7 +104,8 @@ fn cases() -> impl Strategy<Value = Case> {
         }),
         4..40,
     );
-    (proggen::prog_spec(12), ending, prop_oneof![3 => mixed, 2 => steppy], 0u8..3).prop_map(|(mut spec, ending, cmds, end)| {
+    let spec = prop_oneof![5 => proggen::prog_spec(12).boxed(), 1 => proggen::raw_image_spec(super::c03::image_words()).boxed()];
+    (spec, ending, prop_oneof![3 => mixed, 2 => steppy], 0u8..3).prop_map(|(mut spec, ending, cmds, end)| {
         spec.ending = ending;
         Case { spec, cmds, end }
     })
@@ -126,7 +127,7 @@ impl Prop for C16 {
         vec!["liveness is decided only in the bounded-work form the statement gives; blocking reads from a terminal are out of reach".into()]
     }
     fn run_worker(&self, ctx: &Ctx, rep: &mut Report) {
-        let n = ctx.share(ctx.tier.pick(10_000, 150_000));
+        let n = ctx.share(ctx.tier.pick(30_000, 300_000));
         drive(ctx, rep, "sessions", cases(), n, &mut |c: &Case| judge_case(c));
     }
     fn replay(&self, _ctx: &Ctx, case: &Value) -> Obs {
